@@ -577,9 +577,7 @@ class AndNotMatcher(BiMatcher):
         self._find_first()
 
     def _find_first(self):
-        if (self.a.is_active()
-            and self.b.is_active()
-            and self.a.id() == self.b.id()):
+        if self.a.is_active() and self.b.is_active():
             self._find_next()
 
     def is_active(self):
@@ -588,7 +586,7 @@ class AndNotMatcher(BiMatcher):
     def _find_next(self):
         pos = self.a
         neg = self.b
-        if not neg.is_active():
+        if not pos.is_active() or not neg.is_active():
             return
         pos_id = pos.id()
         r = False
